@@ -37,7 +37,9 @@ impl FakeSat {
             let mut f = f.borrow_mut();
             if f.is_none() {
                 let k = COUNTER.fetch_add(1, std::sync::atomic::Ordering::SeqCst);
-                let dir = scratch_root().join(format!("fs-{}-{}", std::process::id(), k));
+                // the directory name contains a space on purpose: every option value and file path
+                // handed to the command line front end then contains whitespace
+                let dir = scratch_root().join(format!("fs-{}-{} with space", std::process::id(), k));
                 std::fs::create_dir_all(&dir).expect("cannot create scratch dir");
                 *f = Some(Arc::new(FakeSat {
                     cfg_path: dir.join("cfg.json"),
